@@ -100,7 +100,7 @@ def ref_pack(ws, vs):
 
 def run(tier, seed, rng):
     comps = [(ws, g) for ws in compositions(8) for g in (True, False)]
-    n16 = 150 if tier == 'quick' else 1500
+    n16 = 150 if tier == 'quick' else 8000
     all16 = list(compositions(16))
     comps += [(ws, rng.random() < 0.5) for ws in rng.sample(all16, n16)]
     for total in (24, 32, 40, 48, 64, 72):
